@@ -68,6 +68,37 @@ def extract_guards():
     return out, helpers
 
 
+def alias_pairs():
+    """(key, function) pairs where the function binds self["key"] (or a slice/view of it) to a local name, or
+    reads one of the large curvature tensors: candidates for in-place corruption of a cached entry."""
+    src = open(os.path.join(REPO, 'src', 'aurel', 'core.py')).read()
+    tree = ast.parse(src)
+    cls = [n for n in tree.body if isinstance(n, ast.ClassDef) and n.name == 'AurelCore'][0]
+    big = {'st_Riemann_down4', 's_Riemann_down3', 'gdown4', 'gup4', 'st_Ricci_down4', 'gammaup3'}
+    pairs = []
+    for fn in cls.body:
+        if not isinstance(fn, ast.FunctionDef) or len(fn.args.args) != 1:
+            continue
+
+        def key_of(node):
+            while isinstance(node, ast.Subscript):
+                if (isinstance(node.value, ast.Name) and node.value.id == 'self' and isinstance(node.slice, ast.Constant)
+                        and isinstance(node.slice.value, str)):
+                    return node.slice.value
+                node = node.value
+            return None
+        for n in ast.walk(fn):
+            if isinstance(n, ast.Assign) and len(n.targets) == 1 and isinstance(n.targets[0], ast.Name):
+                k = key_of(n.value)
+                if k:
+                    pairs.append((k, fn.name))
+            if isinstance(n, ast.Subscript):
+                k = key_of(n)
+                if k in big and k != fn.name:
+                    pairs.append((k, fn.name))
+    return sorted(set(pairs))
+
+
 # ------------------------------------------------------------------------- input patterns
 def pattern_inputs(name):
     al = symarray('al', ())
@@ -328,6 +359,37 @@ def history_obligations(report, guards, tier, patterns=None):
                             report.violation(f"{pname}:{k}", f"{name}: {mismatch}",
                                              report.write_replay(name, dict(pattern=pname, key=k, history=[h] + fill)))
                         obs += o
+    # [k, consumer, k]: a consumer must not corrupt the cached entry it reads (default cache settings)
+    from aurel.core import descriptions
+    for pname in [p_ for p_ in (['tensor'] if tier == 'quick' else ['tensor', 'components']) if patterns is None or p_ in patterns]:
+        inputs, pre = pattern_inputs(pname)
+        c = Ctx(pre=pre, fork=False)
+        canon = {}
+        with use_ctx(c):
+            for k, f in alias_pairs():
+                if k in inputs or k not in descriptions or f not in descriptions or f in inputs:
+                    continue
+                try:
+                    if k not in canon:
+                        canon[k] = fresh(pname, inputs)[k]
+                    rel = fresh(pname, inputs)
+                    rel[k]
+                    rel[f]
+                    got = rel[k]
+                except Inconclusive as e:
+                    skipped.append((pname, k, f"[{k},{f},{k}]: {e!r}"[:120]))
+                    continue
+                except Exception as e:  # noqa
+                    skipped.append((pname, k, f"[{k},{f},{k}]: {e!r}"[:120]))
+                    continue
+                n_hist += 1
+                name = f"{pname}:{k}|after={k}>{f}"
+                o, mismatch = compare(name, got, canon[k], pre, group=f"consumer must not corrupt cached {k}")
+                if mismatch:
+                    report.record(name, 'sat', group=f"consumer must not corrupt cached {k}", kind='structure')
+                    report.violation(f"{pname}:{k}", f"{name}: {mismatch}",
+                                     report.write_replay(name, dict(pattern=pname, key=k, history=[k, f])))
+                obs += o
     report.extra['histories_executed'] = n_hist
     report.extra['histories_skipped'] = skipped[:40]
     return obs
